@@ -184,11 +184,11 @@ def xml_str_text(sx, p):
          functions=['spyne.protocol.dictdoc.hier.HierDictDocument._from_dict_value',
                     'spyne.model.primitive.string.Unicode.validate_string',
                     'spyne.model.primitive.string.Unicode.validate_native'],
-         bounds={'text': '1..6 characters over the alphabet a b c d 0 9 (every string)'})
+         bounds={'text': '0..6 characters over the alphabet a b c d 0 9 (every string, including the empty one)'})
 def json_str_native(sx, p):
     name, T, lo, hi, pattern, values = p
-    L = sx.choose('len', [1, 2, 3, 4, 5] if sx.tier == 'quick' else [1, 2, 3, 4, 5, 6])
-    text = sx.text('t', L, alphabet='abcd09')
+    L = sx.choose('len', [0, 1, 2, 3, 4, 5] if sx.tier == 'quick' else [0, 1, 2, 3, 4, 5, 6])
+    text = sx.text('t', L, alphabet='abcd09') if L else u''
     out = run_soft(lambda: JSON._from_dict_value(CTX, 'k', T, text, JSON.validator))
     ok = _str_ok(sx, text, lo, hi, pattern, values)
     sx.observe('accepted', out.accepted)
@@ -320,4 +320,44 @@ def xml_date_range(sx, p):
     sx.observe('accepted', out.accepted)
     if out.accepted:
         return sx.And(ok, sx.eq(out.value.year, Y), sx.eq(out.value.month, Mo), sx.eq(out.value.day, D))
+    return sx.And(sx.Not(ok), is_client_validation_fault(out.fault))
+
+
+# ---------------------------------------------------------------- date-times with ranges and offsets
+import pytz
+DT_T = DateTime(ge=datetime.datetime(2020, 1, 1, 0, 0, tzinfo=pytz.utc), le=datetime.datetime(2020, 1, 1, 12, 0, tzinfo=pytz.utc))
+
+
+@harness('C05', params=['xml', 'json'],
+         functions=['spyne.model.primitive.datetime.DateTime.validate_native',
+                    'spyne.protocol._inbase.InProtocolBase.datetime_from_unicode_iso'],
+         bounds={'text': '2020-01-01Thh:mm:00(+|-)hh:mm with every digit of the time and of the offset symbolic (offset within '
+                         '-14:00..+14:00), and the Z form'})
+def datetime_range_offsets(sx, fam):
+    """DateTime(ge, le): a literal is accepted <=> the *instant* it denotes lies in the closed range, whatever
+    UTC offset it is written with"""
+    h, mi = sx.digits('h', 2), sx.digits('mi', 2)
+    H, MI = sx.digits_value(h), sx.digits_value(mi)
+    sx.assume(sx.And(H <= 23, MI <= 59))
+    zone = sx.choose('zone', ['offset', 'Z'])
+    text = '2020-01-01T' + h + ':' + mi + ':00'
+    off = 0
+    if zone == 'Z':
+        text = text + 'Z'
+    else:
+        sign = sx.choose('sign', ['+', '-'])
+        oh, om = sx.digits('oh', 2), sx.digits('om', 2)
+        OH, OM = sx.digits_value(oh), sx.digits_value(om)
+        sx.assume(sx.And(OM <= 59, OH * 60 + OM <= 840))
+        text = text + sign + oh + ':' + om
+        off = (OH * 60 + OM) * (-1 if sign == '-' else 1)
+    if fam == 'xml':
+        out = run_soft(lambda: XML.from_element(CTX, DT_T, mk_element(sx, '{tns}v', text=text)))
+    else:
+        out = run_soft(lambda: JSON._from_dict_value(CTX, 'k', DT_T, text, JSON.validator))
+    utc = H * 60 + MI - off          # minutes after 2020-01-01T00:00Z
+    ok = sx.And(utc >= 0, utc <= 720)
+    sx.observe('accepted', out.accepted)
+    if out.accepted:
+        return sx.And(ok, sx.eq(out.value.hour, H), sx.eq(out.value.minute, MI))
     return sx.And(sx.Not(ok), is_client_validation_fault(out.fault))
